@@ -7,6 +7,7 @@ metadata and the value.
 -/
 import XsdataModel.Dict.Encode
 import XsdataModel.Dict.Decode
+import XsdataModel.Bind.FN
 
 namespace Xs.Dict
 open Py Xs.Bind
@@ -25,40 +26,76 @@ def defaultNone (var : XmlVar) : Bool :=
   | .dictFactory => !var.tokens
   | _ => false
 
-/-- the shapes of var the round-trip theorem covers -/
-def varOKj (var : XmlVar) : Bool :=
+/-- a typed field: one primitive type (str / int / bool / QName) or one model class, single or a
+list, possibly under a wrapper element -/
+def varTyped (var : XmlVar) : Bool :=
   !var.isAttributes && !var.isWildcard && !var.isElements && !var.anyType && !var.isClazzUnion
   && var.elements.isEmpty && !var.tokens
   && (match var.clazz, var.types with
-      | none, [.prim t] => t != .qname
+      | none, [.prim _] => true
       | some k, [.cls k'] => k == k'
       | _, _ => false)
   && (match wrapperName var.toVarCore with
       | some w => var.listElement && var.localName != w
       | none => true)
 
+/-- an `xs:anyAttribute` map (`dict[str, str]`) -/
+def varAttrs (var : XmlVar) : Bool :=
+  var.isAttributes && !var.listElement && !var.tokens && (wrapperName var.toVarCore).isNone
+
+/-- a wildcard field (`xs:any`), single or a list, mixed or not: it holds generic `AnyElement`
+instances, primitive values (the text chunks of mixed content) and `None` -/
+def varWild (var : XmlVar) : Bool :=
+  var.isWildcard && !var.isAttributes && !var.isElements && !var.isClazzUnion && var.elements.isEmpty
+  && !var.tokens && var.clazz.isNone && (wrapperName var.toVarCore).isNone
+
+/-- a tokens field (`xs:list`): one value made of white space separated primitive items -/
+def varTokens (var : XmlVar) : Bool :=
+  var.tokens && !var.listElement && !var.isAttributes && !var.isWildcard && !var.isElements && !var.anyType
+  && var.clazz.isNone && (wrapperName var.toVarCore).isNone
+  && (match var.types with
+      | [.prim t] => t != .qname
+      | _ => false)
+
+/-- a compound field (`Elements`): a list whose items are spread over several choices -/
+def varComp (var : XmlVar) : Bool :=
+  var.isElements && var.listElement && !var.isAttributes && !var.isWildcard && !var.tokens && !var.isClazzUnion
+  && !var.elements.isEmpty && (wrapperName var.toVarCore).isNone
+
+/-- the shapes of var the round-trip theorem covers -/
+def varOKj (var : XmlVar) : Bool :=
+  varTyped var || varAttrs var || varWild var || varTokens var || varComp var
+
+/-- the key sets by which the decoder recognises generic elements must not be hit by accident:
+a user class emits neither `qname` nor `children`; the generic class `AnyElement` itself emits only
+its own keys and always emits the two keys that do not default to `None` (they belong to a list
+and to a map field, whose values are never `None`) -/
+def markersOK (c : ClassId) (vars : List XmlVar) : Bool :=
+  let keys := vars.map (fun v => keyOf v.toVarCore)
+  if c = anyId then
+    keys.all (anyKeys.contains ·)
+    && anyRequired.all (fun k => vars.any (fun v => keyOf v.toVarCore == k && (v.listElement || v.isAttributes)))
+  else !keys.contains kQName && !keys.contains kChildren
+
 /-- per class: every var is in the fragment, the keys under which the encoder emits the
 fields are pairwise distinct and are not confused with any other var's local name or wrapper,
-no key is `qname` or `children` (the markers of the two generic key sets), and vars and dataclass fields
-correspond -/
+the marker keys of the generic key sets are respected, and vars and dataclass fields correspond -/
 def classOKj (ci : ClassInfo) (m : XmlMeta) : Bool :=
   let vars := allVars m
   vars.all varOKj
   && decide ((vars.map (fun v => keyOf v.toVarCore)).Nodup)
   && vars.all (fun a => vars.all (fun b =>
       (b.localName != keyOf a.toVarCore && wrapperName b.toVarCore != some (keyOf a.toVarCore)) || decide (b = a)))
-  && !(vars.map (fun v => keyOf v.toVarCore)).contains kQName
-  && !(vars.map (fun v => keyOf v.toVarCore)).contains kChildren
+  && markersOK ci.id vars
   && decide ((vars.map (·.name)).Nodup)
   && decide ((ci.fields.map (·.name)).Nodup)
   && ci.fields.all (fun f => vars.any (fun v => v.name == f.name && v.init == f.init))
 
-/-- every user class of the universe is inside the fragment (the two generic classes
-`AnyElement` / `DerivedElement` are not: their key sets are what `qname` is reserved for);
+/-- every class of the universe but `DerivedElement` is inside the fragment;
 `valOKj` checks `classOKj` for the classes an instance actually reaches -/
 def ctxOKj (Γ : Ctx) : Bool :=
   Γ.classes.all fun ci =>
-    ci.id == anyId || ci.id == derivedId ||
+    ci.id == derivedId ||
     (match metaOf Γ ci.id with
      | .ok m => classOKj ci m
      | .error _ => false)
@@ -69,17 +106,17 @@ def keptBy (fac : Factory) (x : Val) : Bool :=
   | .filterNone, .none => false
   | _, _ => true
 
-/-- the keys of the dictionary a model instance encodes to -/
+/-- the keys of the dictionary a model instance (a generic `AnyElement` included) encodes to -/
 def encKeys (Γ : Ctx) (fac : Factory) (v : Val) : List Str :=
-  match v with
-  | .obj c fs =>
+  match asObject v with
+  | some (c, fs) =>
     match metaOf Γ c with
     | .ok m => (allVars m).filterMap fun var =>
         match kvGet fs var.name with
         | some x => if keptBy fac x then some (keyOf var.toVarCore) else none
         | none => none
     | .error _ => []
-  | _ => []
+  | none => []
 
 /-- the candidate pool of `bind_complex_type` for a field of declared class `k` picks the
 instance's own class: no loaded subclass at all, or exactly the own class matches the keys -/
@@ -91,25 +128,96 @@ def poolOKj (Γ : Ctx) (fac : Factory) (k : ClassId) (x : Val) : Bool :=
     else (subs ++ [k]).filter (localNamesMatch Γ (encKeys Γ fac x)) == [k']
   | _ => false
 
-def itemOKj (ok : ClassId → Val → Bool) (Γ : Ctx) (fac : Factory) (var : XmlVar) (x : Val) : Bool :=
+/-- a `QName` is written as its text; it is read back by `QNameConverter.deserialize` without
+prefix map, which accepts the Clark form of a valid URI / NCName pair (or a bare NCName) -/
+def qnameBack (e : BEnv) (p : PVal) : Bool :=
+  match p with
+  | .qname t => deOne e t (.prim .qname) [] == some (.qname t)
+  | _ => true
+
+def itemOKj (e : BEnv) (ok : ClassId → Val → Bool) (Γ : Ctx) (fac : Factory) (var : XmlVar) (x : Val) : Bool :=
   match x with
   | .none => defaultNone var
-  | .prim p => var.types == [.prim (pvalType p)]
+  | .prim p => var.types == [.prim (pvalType p)] && qnameBack e p
   | .obj k' _ =>
     (match var.clazz with
      | some k => ok k' x && poolOKj Γ fac k x
      | none => false)
   | _ => false
 
-def valueOKj (ok : ClassId → Val → Bool) (Γ : Ctx) (fac : Factory) (var : XmlVar) (x : Val) : Bool :=
+/-- the value is a generic `AnyElement` -/
+def isAnyV : Val → Bool
+  | .any .. => true
+  | _ => false
+
+/-- one item of a wildcard field: `None`, a primitive kept as it is, or a generic element -/
+def wildItemOKj (ok : ClassId → Val → Bool) (x : Val) : Bool :=
+  match x with
+  | .none => true
+  | .prim p => pvalType p != .qname
+  | .any .. => ok anyId x
+  | _ => false
+
+/-- one item of a compound field: a primitive for which `find_value_choice` finds a choice that
+declares the primitive's own type (exact type first), or a model instance whose keys single out
+its class among the classes of the choices -/
+def compItemOKj (e : BEnv) (ok : ClassId → Val → Bool) (Γ : Ctx) (fac : Factory) (var : XmlVar) (x : Val) : Bool :=
+  match x with
+  | .prim p =>
+    pvalType p != .qname &&
+    (match findValueChoice e var (encPrim p) with
+     | .ok (some el) => !el.tokens && !el.anyType && !el.isWildcard && el.types.contains (.prim (pvalType p))
+     | _ => false)
+  | .obj k' _ => ok k' x && (varElementTypes var).filter (localNamesMatch Γ (encKeys Γ fac x)) == [k']
+  | _ => false
+
+/-- the value of a compound field -/
+def compValueOKj (e : BEnv) (ok : ClassId → Val → Bool) (Γ : Ctx) (fac : Factory) (var : XmlVar) (x : Val) : Bool :=
+  match x with
+  | .list items => items.all (compItemOKj e ok Γ fac var)
+  | _ => false
+
+/-- the value of a typed field -/
+def typedValueOKj (e : BEnv) (ok : ClassId → Val → Bool) (Γ : Ctx) (fac : Factory) (var : XmlVar) (x : Val) : Bool :=
   if var.listElement then
     (match x with
-     | .list items => items.all (itemOKj ok Γ fac var)
+     | .list items => items.all (itemOKj e ok Γ fac var)
      | _ => false)
   else
     (match x with
      | .list _ => false
-     | _ => itemOKj ok Γ fac var x)
+     | _ => itemOKj e ok Γ fac var x)
+
+/-- the value of a wildcard field -/
+def wildValueOKj (ok : ClassId → Val → Bool) (var : XmlVar) (x : Val) : Bool :=
+  if var.listElement then
+    (match x with
+     | .list items => items.all (wildItemOKj ok)
+     | _ => false)
+  else
+    (match x with
+     | .list _ => false
+     | _ => wildItemOKj ok x)
+
+/-- the value of a tokens field: a list of primitives of the item type, each of which survives
+`" ".join` / `str.split()` (strings: not empty, no white space) -/
+def tokensValueOKj (e : BEnv) (var : XmlVar) (x : Val) : Bool :=
+  match var.types with
+  | [.prim t] => Xs.Bind.FN.tokensOK e t x
+  | _ => false
+
+/-- the value of an `xs:anyAttribute` map: a mapping with pairwise distinct keys -/
+def attrsValueOKj (x : Val) : Bool :=
+  match x with
+  | .attrs m => decide ((m.map (·.1)).Nodup)
+  | _ => false
+
+def valueOKj (e : BEnv) (ok : ClassId → Val → Bool) (Γ : Ctx) (fac : Factory) (var : XmlVar) (x : Val) : Bool :=
+  if var.isAttributes then attrsValueOKj x
+  else if var.isWildcard then wildValueOKj ok var x
+  else if var.tokens then tokensValueOKj e var x
+  else if var.isElements then compValueOKj e ok Γ fac var x
+  else typedValueOKj e ok Γ fac var x
 
 def fixedOK (e : BEnv) (var : XmlVar) (x : Val) : Bool :=
   match validateFixed e.py var.toVarCore x with
@@ -129,19 +237,87 @@ or a missing key (FILTER_NONE) gives `None` back, fields outside `__init__` hold
 value, nested instances are unambiguous in their candidate pool -/
 def valOKj (e : BEnv) (Γ : Ctx) (fac : Factory) : Nat → ClassId → Val → Bool
   | 0, _, _ => false
-  | n + 1, c, .obj c' fs =>
-    c' == c && c != anyId && c != derivedId &&
-    (match Γ.find c, metaOf Γ c with
-     | some ci, .ok m =>
-       classOKj ci m
-       && fs.map (·.1) == ci.fields.map (·.name)
-       && (allVars m).all (fun var =>
-            match kvGet fs var.name with
-            | some x => valueOKj (valOKj e Γ fac n) Γ fac var x && (var.init || fixedOK e var x)
-            | none => false)
-       && fs.all (fun kv => ci.fields.all (fun f => f.name != kv.1 ||
-            (if f.init then keptBy fac kv.2 || defaultIs f .none else defaultIs f kv.2)))
-     | _, _ => false)
-  | _ + 1, _, _ => false
+  | n + 1, c, v =>
+    match asObject v with
+    | some (c', fs) =>
+      c' == c && c != derivedId
+      -- an instance of the generic class is an `AnyElement` value, and the other way round
+      && (isAnyV v == decide (c = anyId)) &&
+      (match Γ.find c, metaOf Γ c with
+       | some ci, .ok m =>
+         classOKj ci m && ci.id == c
+         && fs.map (·.1) == ci.fields.map (·.name)
+         && (allVars m).all (fun var =>
+              match kvGet fs var.name with
+              | some x => valueOKj e (valOKj e Γ fac n) Γ fac var x && (var.init || fixedOK e var x)
+              | none => false)
+         && fs.all (fun kv => ci.fields.all (fun f => f.name != kv.1 ||
+              (if f.init then keptBy fac kv.2 || defaultIs f .none else defaultIs f kv.2)))
+       | _, _ => false)
+    | none => false
+
+/-! ### the same fragment with the ambiguity condition moved to the class universe -/
+
+/-- a decidable condition on the class universe alone: no loaded class has a loaded subclass, so
+`bind_complex_type` never builds a candidate pool.  A pool always holds a class together with a
+subclass that inherits its keys, and the dictionary of a base-class instance then matches both:
+the universes outside this condition are exactly those in which `C04-subclass-ambiguity` can
+occur (there the per-instance condition `poolOKj` of `valOKj` decides). -/
+def noSubclassPools (Γ : Ctx) : Bool :=
+  Γ.classes.all fun ci => (subclassesOf Γ ci.id).isEmpty
+
+/-- the instance's class is the declared (loaded) class or one of its loaded subclasses -/
+def memPool (Γ : Ctx) (k : ClassId) (x : Val) : Bool :=
+  match x with
+  | .obj k' _ => (Γ.find k).isSome && (subclassesOf Γ k ++ [k]).contains k'
+  | _ => false
+
+def itemOKu (e : BEnv) (ok : ClassId → Val → Bool) (Γ : Ctx) (var : XmlVar) (x : Val) : Bool :=
+  match x with
+  | .none => defaultNone var
+  | .prim p => var.types == [.prim (pvalType p)] && qnameBack e p
+  | .obj k' _ =>
+    (match var.clazz with
+     | some k => ok k' x && memPool Γ k x
+     | none => false)
+  | _ => false
+
+def typedValueOKu (e : BEnv) (ok : ClassId → Val → Bool) (Γ : Ctx) (var : XmlVar) (x : Val) : Bool :=
+  if var.listElement then
+    (match x with
+     | .list items => items.all (itemOKu e ok Γ var)
+     | _ => false)
+  else
+    (match x with
+     | .list _ => false
+     | _ => itemOKu e ok Γ var x)
+
+def valueOKu (e : BEnv) (ok : ClassId → Val → Bool) (Γ : Ctx) (fac : Factory) (var : XmlVar) (x : Val) : Bool :=
+  if var.isAttributes then attrsValueOKj x
+  else if var.isWildcard then wildValueOKj ok var x
+  else if var.tokens then tokensValueOKj e var x
+  else if var.isElements then compValueOKj e ok Γ fac var x
+  else typedValueOKu e ok Γ var x
+
+/-- `valOKj` without its per-instance ambiguity condition: only typing -/
+def valOKu (e : BEnv) (Γ : Ctx) (fac : Factory) : Nat → ClassId → Val → Bool
+  | 0, _, _ => false
+  | n + 1, c, v =>
+    match asObject v with
+    | some (c', fs) =>
+      c' == c && c != derivedId
+      && (isAnyV v == decide (c = anyId)) &&
+      (match Γ.find c, metaOf Γ c with
+       | some ci, .ok m =>
+         classOKj ci m && ci.id == c
+         && fs.map (·.1) == ci.fields.map (·.name)
+         && (allVars m).all (fun var =>
+              match kvGet fs var.name with
+              | some x => valueOKu e (valOKu e Γ fac n) Γ fac var x && (var.init || fixedOK e var x)
+              | none => false)
+         && fs.all (fun kv => ci.fields.all (fun f => f.name != kv.1 ||
+              (if f.init then keptBy fac kv.2 || defaultIs f .none else defaultIs f kv.2)))
+       | _, _ => false)
+    | none => false
 
 end Xs.Dict
